@@ -1,8 +1,10 @@
 //! C14 correspondence + oracles: real `tensor_vault::Vault` vs the Lean vault model.
 //!
 //! Streams
-//!   directed : small fixed scenarios.  FIRST on every run: `names-at-rest-known`, which deterministically
-//!              reproduces the three KNOWN findings (secret name readable in `_vault_ttl_grants`, in
+//!   directed : small fixed scenarios.  FIRST on every run: `secret-node-key-as-identity` (regression case for the
+//!              defect fixed by ad58047e: the requester string `vault_secret:<obfuscated name>` — the graph key of
+//!              the secret's own node — must get nothing on any path), then `names-at-rest-known`, which
+//!              deterministically reproduces the three KNOWN findings (secret name readable in `_vault_ttl_grants`, in
 //!              `_vdel:` records and therefore in the snapshot).  Then TTL on read / write / admin /
 //!              delegate paths (`ttl-write-path` … are the regression cases for the defect fixed by
 //!              4e577a4d: an expired grant must not authorise anything), revoke, delete, membership
@@ -16,6 +18,10 @@
 //!     delegate with no live (unexpired, unrevoked) sufficient grant reachable over MEMBER edges
 //!     within the horizon  ->  violation `tensor_vault.<op>/expired_grant_authorises` or
 //!     `tensor_vault.<op>/access_without_grant`
+//!   * requesters are root, the named identities AND the graph-node keys of the secrets (`vault_secret:…`, real
+//!     strings read from the graph): any success of a node key on its OWN secret (where the path search answers
+//!     Admin through `source == target`) -> `tensor_vault.access/secret_node_key_as_identity`; on another secret the
+//!     general oracle applies with the search started at that secret's node
 //!   * a delegation whose effective level exceeds the requested level or the parent's own live level
 //!     ->  `tensor_vault.delegate/exceeds_parent_level`.  A delegation by a parent that holds less than
 //!     Admin is NOT a violation: the ceiling model ("agents delegate subsets of their own access",
@@ -38,6 +44,11 @@ const ROOT: &str = "node:root";
 /// do not start an operation closer than this before a pending expiry (µs)
 const PRE_GUARD: u64 = 4000;
 const POST_GUARD: u64 = 400;
+/// requester numbers from here on are not identities: `KEY_BASE + <model id of a secret>` is the requester STRING
+/// `vault_secret:<obfuscated name>`, the graph key of that secret's node (same numbering as the model's `nodeKeyBase`)
+const KEY_BASE: usize = 2_000_000;
+/// a node key of no stored secret (model id outside every namespace)
+const KEY_NO_SECRET: usize = KEY_BASE + 990_000;
 
 // ------------------------------------------------------------------ helpers
 
@@ -192,6 +203,8 @@ struct World {
     sec_ids: Vec<u64>, // model ids (ns*100+k)
     sec_exists: Vec<bool>,
     sec_node: Vec<Option<u64>>,
+    /// graph key (`entity_key`) of the secret's node, read from the graph when the secret is created; kept after a delete
+    sec_key: Vec<Option<String>>,
     values: Vec<String>,
     value_id: HashMap<String, usize>,
     grants: Vec<Grant>,
@@ -271,6 +284,7 @@ impl World {
             n_users,
             sec_exists: vec![false; sec_names.len()],
             sec_node: vec![None; sec_names.len()],
+            sec_key: vec![None; sec_names.len()],
             sec_names,
             sec_ids,
             values: Vec::new(),
@@ -358,7 +372,42 @@ impl World {
         if let Ok(edges) = self.graph.edges_of(root, Direction::Outgoing) {
             if let Some(e) = edges.iter().max_by_key(|e| e.id) {
                 self.sec_node[s] = Some(e.to);
+                if let Ok(node) = self.graph.get_node(e.to) {
+                    if let Some(PropertyValue::String(k)) = node.properties.get("entity_key") {
+                        self.sec_key[s] = Some(k.clone());
+                    }
+                }
             }
+        }
+    }
+
+    /// secret index a node-key requester number names (None: an identity, or the key of no secret of this world)
+    fn key_secret(&self, req: usize) -> Option<usize> {
+        if req < KEY_BASE {
+            return None;
+        }
+        let id = (req - KEY_BASE) as u64;
+        self.sec_ids.iter().position(|x| *x == id)
+    }
+
+    /// the requester STRING handed to the vault
+    fn req_str(&self, req: usize) -> String {
+        if req < KEY_BASE {
+            return self.idents[req].clone();
+        }
+        match self.key_secret(req).and_then(|i| self.sec_key[i].clone()) {
+            Some(k) => k,
+            // never created in this world (or no such secret): still a string of the node-key form
+            None => format!("vault_secret:{:064x}", req - KEY_BASE),
+        }
+    }
+
+    /// bookkeeping node the path search starts at for this requester string
+    fn req_nd(&self, req: usize) -> Option<Nd> {
+        if req < KEY_BASE {
+            Some(Nd::Ent(req))
+        } else {
+            self.key_secret(req).map(Nd::Sec)
         }
     }
 
@@ -394,7 +443,8 @@ impl World {
 
     /// best level `req` holds on `sec` through grants satisfying `filter`
     fn best_level(&self, req: usize, sec: usize, now: u64, live_only: bool) -> u8 {
-        let d = self.dists(Nd::Ent(req));
+        let Some(start) = self.req_nd(req) else { return 0 };
+        let d = self.dists(start);
         let mut best = 0u8;
         for g in &self.grants {
             if !g.alive || g.sec != sec {
@@ -442,6 +492,22 @@ impl World {
             return;
         }
         rep.hit("oracle.access_checked");
+        if req >= KEY_BASE {
+            rep.hit("oracle.node_key_requester_succeeded");
+            if self.key_secret(req) == Some(sec) {
+                // the requester string IS the graph key of this secret's node: no grant can be behind this success,
+                // the path search answered through `source == target` (defect repaired by ad58047e)
+                let class = "tensor_vault.access/secret_node_key_as_identity";
+                rep.hit(&format!("violation.{class}"));
+                rep.violation(
+                    class,
+                    &format!("the requester string equal to the secret's own graph-node key (vault_secret:<obfuscated name>, readable in store keys and node properties) succeeded with `{op}` (needs level {need}) without any grant"),
+                    json!({"failing_call": line, "operation": op, "time_us": now, "requester_string_prefix": self.req_str(req).chars().take(24).collect::<String>(),
+                           "history_slice (model protocol; identity 0 = root; requester 2000000+s = node key of secret s)": self.relevant_history(req, sec)}),
+                );
+                return;
+            }
+        }
         let live = self.best_level(req, sec, now, true);
         if live >= need {
             return;
@@ -457,7 +523,7 @@ impl World {
             ),
             json!({"failing_call": line, "time_us": now, "policy": format!("{:?}", self.pol),
                    "bookkeeping_grants_on_secret (ent, level, expiry_window_us, alive, delegation)": self.grants.iter().filter(|g| g.sec == sec).map(|g| format!("{:?}", (g.ent, g.level, g.expiry, g.alive, g.deleg))).collect::<Vec<_>>(),
-                   "bookkeeping_member_distance_from_requester": format!("{:?}", self.dists(Nd::Ent(req))),
+                   "bookkeeping_member_distance_from_requester": format!("{:?}", self.req_nd(req).map(|n| self.dists(n))),
                    "history_slice (model protocol; identity 0 = root; times in microseconds)": self.relevant_history(req, sec)}),
         );
     }
@@ -644,6 +710,8 @@ enum Op {
     DelMember { a: usize, b: Nd },
     /// calls that only check a level: 0 encrypt_for+decrypt_as, 1 get_expiration, 2 clear_expiration (Admin), 3 changelog, 4 diff_versions(1,1)
     Probe { req: usize, sec: usize, kind: u8 },
+    /// `get_permission(req, sec)`
+    Perm { req: usize, sec: usize },
     GetVersion { req: usize, sec: usize, ver: u32 },
     /// `current_version` (via_list: `list_versions().len()`)
     Versions { req: usize, sec: usize, via_list: bool },
@@ -672,6 +740,42 @@ const ACCESS_TYPES: &[&str] = &["VAULT_ACCESS_FOO", "VAULT_ACCESS_READ", "VAULT_
 /// the expected answer always comes from the model's own classification
 fn is_memberish(ty: &str) -> bool {
     ty.starts_with("MEMBER")
+}
+
+/// the requester (or delegating parent) of an op, if it has one
+fn op_requester(op: &Op) -> Option<usize> {
+    match op {
+        Op::Set { req, .. } | Op::Get { req, .. } | Op::List { req, .. } | Op::Rotate { req, .. } | Op::Delete { req, .. } | Op::Grant { req, .. }
+        | Op::GrantTtl { req, .. } | Op::Revoke { req, .. } | Op::Probe { req, .. } | Op::Perm { req, .. } | Op::GetVersion { req, .. }
+        | Op::Versions { req, .. } | Op::Rollback { req, .. } | Op::BatchGet { req, .. } | Op::BatchSet { req, .. } | Op::Wrap { req, .. }
+        | Op::SetExact { req, .. } => Some(*req),
+        Op::Delegate { parent, .. } | Op::Undelegate { parent, .. } | Op::UndelegateCascade { parent, .. } => Some(*parent),
+        _ => None,
+    }
+}
+
+/// a guarded call of kind `k` (0..17) by requester `rq` on secret `sx`
+fn guarded_op(r: &mut Rng, k: u64, rq: usize, sx: usize, n_users: usize) -> Op {
+    let ent = 1 + r.below(n_users as u64) as usize;
+    match k {
+        0 => Op::Get { req: rq, sec: sx },
+        1 => Op::Set { req: rq, sec: sx, big: false },
+        2 => Op::Rotate { req: rq, sec: sx, big: false },
+        3 => Op::Delete { req: rq, sec: sx },
+        4 => Op::Grant { req: rq, ent, sec: sx, level: 1 + r.below(3) as u8, plain_api: r.chance(1, 3) },
+        5 => Op::GrantTtl { req: rq, ent, sec: sx, level: 1 + r.below(3) as u8, ttl_ms: 6 + r.below(50) },
+        6 => Op::Revoke { req: rq, ent, sec: sx },
+        7 => Op::Delegate { parent: rq, child: ent, secs: vec![sx], level: 1 + r.below(3) as u8, ttl_ms: None },
+        8 => Op::Probe { req: rq, sec: sx, kind: r.below(5) as u8 },
+        9 => Op::GetVersion { req: rq, sec: sx, ver: 1 },
+        10 => Op::Versions { req: rq, sec: sx, via_list: r.chance(1, 2) },
+        11 => Op::Rollback { req: rq, sec: sx, ver: 1 },
+        12 => Op::BatchGet { req: rq, secs: vec![sx] },
+        13 => Op::BatchSet { req: rq, secs: vec![sx], big: vec![false], plain_api: r.chance(1, 2) },
+        14 => Op::Wrap { req: rq, sec: sx },
+        15 => Op::List { req: rq, pat: *r.pick(&[0u8, 2]), arg: sx, via: *r.pick(&[0u8, 1, 2]) },
+        _ => Op::Perm { req: rq, sec: sx },
+    }
 }
 
 /// outcome of one op: true = keep going, false = history aborted (time-ambiguous call)
@@ -704,7 +808,23 @@ fn exec(w: &mut World, m: &mut Model, rep: &mut Report, r: &mut Rng, stream: &st
             imp
         }};
     }
+    if let Some(rq) = op_requester(op) {
+        if rq >= KEY_BASE {
+            rep.hit(if w.key_secret(rq).is_some() { "requester.secret_node_key" } else { "requester.node_key_of_no_secret" });
+        }
+    }
     match op {
+        Op::Perm { req, sec } => {
+            let t0 = w.clear_time();
+            let out = w.vault.get_permission(&w.req_str(*req), &w.sec_names[*sec].clone()).map(lvl);
+            let imp = out.map_or("none".to_string(), |l| l.to_string());
+            let line = format!("perm {t0} {req} {}", w.sec_ids[*sec]);
+            let imp = finish!("permq", line.clone(), imp, t0);
+            if let Ok(l) = imp.parse::<u8>() {
+                // whatever level it reports must be backed by a live grant of at least that level
+                w.check_access(rep, "get_permission", *req, *sec, l, t0, &line);
+            }
+        }
         Op::Sleep { ms } => {
             std::thread::sleep(Duration::from_millis(*ms));
             w.lines.push(format!("sleep {ms}ms"));
@@ -714,7 +834,7 @@ fn exec(w: &mut World, m: &mut Model, rep: &mut Report, r: &mut Rng, stream: &st
             let (vid, val) = w.new_value(r, *big);
             let t0 = w.clear_time();
             let existed = w.sec_exists[*sec];
-            let out = w.vault.set(&w.idents[*req].clone(), &w.sec_names[*sec].clone(), &val).map(|()| "ok".to_string());
+            let out = w.vault.set(&w.req_str(*req), &w.sec_names[*sec].clone(), &val).map(|()| "ok".to_string());
             let imp = res(w, out);
             let line = format!("set {t0} {req} {} {vid} {}", w.sec_ids[*sec], val.len());
             let imp = finish!("set", line.clone(), imp, t0);
@@ -724,7 +844,7 @@ fn exec(w: &mut World, m: &mut Model, rep: &mut Report, r: &mut Rng, stream: &st
         }
         Op::Get { req, sec } => {
             let t0 = w.clear_time();
-            let out = w.vault.get(&w.idents[*req].clone(), &w.sec_names[*sec].clone());
+            let out = w.vault.get(&w.req_str(*req), &w.sec_names[*sec].clone());
             let out = out.map(|v| match w.value_id.get(&v) {
                 Some(id) => format!("ok v{id}"),
                 None => "ok v?".to_string(),
@@ -751,7 +871,7 @@ fn exec(w: &mut World, m: &mut Model, rep: &mut Report, r: &mut Rng, stream: &st
                 }
                 _ => (w.sec_names[*arg].clone(), format!("one:{}", w.sec_ids[*arg])),
             };
-            let rq = w.idents[*req].clone();
+            let rq = w.req_str(*req);
             rep.hit(&format!("list.via{via}"));
             let out = match via {
                 1 => w.vault.list_paginated(&rq, &pattern, 0, 0).map(|p| p.secrets),
@@ -786,7 +906,7 @@ fn exec(w: &mut World, m: &mut Model, rep: &mut Report, r: &mut Rng, stream: &st
         Op::Rotate { req, sec, big } => {
             let (vid, val) = w.new_value(r, *big);
             let t0 = w.clear_time();
-            let out = w.vault.rotate(&w.idents[*req].clone(), &w.sec_names[*sec].clone(), &val).map(|()| "ok".to_string());
+            let out = w.vault.rotate(&w.req_str(*req), &w.sec_names[*sec].clone(), &val).map(|()| "ok".to_string());
             let imp = res(w, out);
             let line = format!("rotate {t0} {req} {} {vid} {}", w.sec_ids[*sec], val.len());
             let imp = finish!("rotate", line.clone(), imp, t0);
@@ -796,7 +916,7 @@ fn exec(w: &mut World, m: &mut Model, rep: &mut Report, r: &mut Rng, stream: &st
         }
         Op::Delete { req, sec } => {
             let t0 = w.clear_time();
-            let out = w.vault.delete(&w.idents[*req].clone(), &w.sec_names[*sec].clone()).map(|()| "ok".to_string());
+            let out = w.vault.delete(&w.req_str(*req), &w.sec_names[*sec].clone()).map(|()| "ok".to_string());
             let imp = res(w, out);
             let line = format!("delete {t0} {req} {}", w.sec_ids[*sec]);
             let imp = finish!("delete", line.clone(), imp, t0);
@@ -813,7 +933,7 @@ fn exec(w: &mut World, m: &mut Model, rep: &mut Report, r: &mut Rng, stream: &st
         }
         Op::Grant { req, ent, sec, level, plain_api } => {
             let t0 = w.clear_time();
-            let (rq, en, sn) = (w.idents[*req].clone(), w.idents[*ent].clone(), w.sec_names[*sec].clone());
+            let (rq, en, sn) = (w.req_str(*req), w.idents[*ent].clone(), w.sec_names[*sec].clone());
             let out = if *plain_api && *level == 3 { w.vault.grant(&rq, &en, &sn) } else { w.vault.grant_with_permission(&rq, &en, &sn, perm_of(*level)) };
             let imp = res(w, out.map(|()| "ok".to_string()));
             let line = format!("grant {t0} {req} {ent} {} {level}", w.sec_ids[*sec]);
@@ -825,7 +945,7 @@ fn exec(w: &mut World, m: &mut Model, rep: &mut Report, r: &mut Rng, stream: &st
         }
         Op::GrantTtl { req, ent, sec, level, ttl_ms } => {
             let t0 = w.clear_time();
-            let (rq, en, sn) = (w.idents[*req].clone(), w.idents[*ent].clone(), w.sec_names[*sec].clone());
+            let (rq, en, sn) = (w.req_str(*req), w.idents[*ent].clone(), w.sec_names[*sec].clone());
             let out = w.vault.grant_with_ttl(&rq, &en, &sn, perm_of(*level), Duration::from_millis(*ttl_ms));
             let t1 = w.now();
             let imp = res(w, out.map(|()| "ok".to_string()));
@@ -838,7 +958,7 @@ fn exec(w: &mut World, m: &mut Model, rep: &mut Report, r: &mut Rng, stream: &st
         }
         Op::Revoke { req, ent, sec } => {
             let t0 = w.clear_time();
-            let (rq, en, sn) = (w.idents[*req].clone(), w.idents[*ent].clone(), w.sec_names[*sec].clone());
+            let (rq, en, sn) = (w.req_str(*req), w.idents[*ent].clone(), w.sec_names[*sec].clone());
             let out = w.vault.revoke(&rq, &en, &sn);
             let imp = res(w, out.map(|()| "ok".to_string()));
             let line = format!("revoke {t0} {req} {ent} {}", w.sec_ids[*sec]);
@@ -853,7 +973,7 @@ fn exec(w: &mut World, m: &mut Model, rep: &mut Report, r: &mut Rng, stream: &st
         }
         Op::Delegate { parent, child, secs, level, ttl_ms } => {
             let t0 = w.clear_time();
-            let (pa, ch) = (w.idents[*parent].clone(), w.idents[*child].clone());
+            let (pa, ch) = (w.req_str(*parent), w.idents[*child].clone());
             let names: Vec<String> = secs.iter().map(|s| w.sec_names[*s].clone()).collect();
             let refs: Vec<&str> = names.iter().map(String::as_str).collect();
             let out = w.vault.delegate(&pa, &ch, &refs, perm_of(*level), ttl_ms.map(Duration::from_millis));
@@ -878,7 +998,8 @@ fn exec(w: &mut World, m: &mut Model, rep: &mut Report, r: &mut Rng, stream: &st
                 }
                 for s in secs {
                     w.check_access(rep, "delegate", *parent, *s, *level, t0, &line);
-                    if *parent != 0 {
+                    // (a parent that is the secret's own node key was reported by `check_access` above)
+                    if *parent != 0 && w.key_secret(*parent) != Some(*s) {
                         rep.hit("oracle.delegate_ceiling_checked");
                         let own = w.best_level(*parent, *s, t0, true);
                         if eff > own {
@@ -903,7 +1024,7 @@ fn exec(w: &mut World, m: &mut Model, rep: &mut Report, r: &mut Rng, stream: &st
         }
         Op::Undelegate { parent, child } => {
             let t0 = w.clear_time();
-            let out = w.vault.revoke_delegation(&w.idents[*parent].clone(), &w.idents[*child].clone());
+            let out = w.vault.revoke_delegation(&w.req_str(*parent), &w.idents[*child].clone());
             let out = out.map(|names| {
                 let mut ids: Vec<u64> = names.iter().map(|n| w.sec_names.iter().position(|x| x == n).map_or(999_999, |i| w.sec_ids[i])).collect();
                 ids.sort_unstable();
@@ -944,7 +1065,7 @@ fn exec(w: &mut World, m: &mut Model, rep: &mut Report, r: &mut Rng, stream: &st
         }
         Op::Probe { req, sec, kind } => {
             let t0 = w.clear_time();
-            let (rq, sn) = (w.idents[*req].clone(), w.sec_names[*sec].clone());
+            let (rq, sn) = (w.req_str(*req), w.sec_names[*sec].clone());
             let (name, need, must_exist, out): (&str, u8, u8, Result<(), VaultError>) = match kind {
                 0 => {
                     let payload = b"transit payload \x00\x01".to_vec();
@@ -970,7 +1091,7 @@ fn exec(w: &mut World, m: &mut Model, rep: &mut Report, r: &mut Rng, stream: &st
         }
         Op::GetVersion { req, sec, ver } => {
             let t0 = w.clear_time();
-            let out = w.vault.get_version(&w.idents[*req].clone(), &w.sec_names[*sec].clone(), *ver);
+            let out = w.vault.get_version(&w.req_str(*req), &w.sec_names[*sec].clone(), *ver);
             let out = out.map(|v| format!("ok {}", w.value_tag(&v)));
             let imp = res(w, out);
             let line = format!("getver {t0} {req} {} {ver}", w.sec_ids[*sec]);
@@ -981,7 +1102,7 @@ fn exec(w: &mut World, m: &mut Model, rep: &mut Report, r: &mut Rng, stream: &st
         }
         Op::Versions { req, sec, via_list } => {
             let t0 = w.clear_time();
-            let (rq, sn) = (w.idents[*req].clone(), w.sec_names[*sec].clone());
+            let (rq, sn) = (w.req_str(*req), w.sec_names[*sec].clone());
             let out = if *via_list { w.vault.list_versions(&rq, &sn).map(|v| v.len() as u32) } else { w.vault.current_version(&rq, &sn) };
             let imp = res(w, out.map(|n| format!("ok n{n}")));
             let line = format!("vercount {t0} {req} {}", w.sec_ids[*sec]);
@@ -992,7 +1113,7 @@ fn exec(w: &mut World, m: &mut Model, rep: &mut Report, r: &mut Rng, stream: &st
         }
         Op::Rollback { req, sec, ver } => {
             let t0 = w.clear_time();
-            let out = w.vault.rollback(&w.idents[*req].clone(), &w.sec_names[*sec].clone(), *ver).map(|()| "ok".to_string());
+            let out = w.vault.rollback(&w.req_str(*req), &w.sec_names[*sec].clone(), *ver).map(|()| "ok".to_string());
             let imp = res(w, out);
             let line = format!("rollback {t0} {req} {} {ver}", w.sec_ids[*sec]);
             let imp = finish!("rollback", line.clone(), imp, t0);
@@ -1004,7 +1125,7 @@ fn exec(w: &mut World, m: &mut Model, rep: &mut Report, r: &mut Rng, stream: &st
             let t0 = w.clear_time();
             let names: Vec<String> = secs.iter().map(|s| w.sec_names[*s].clone()).collect();
             let refs: Vec<&str> = names.iter().map(String::as_str).collect();
-            let out = w.vault.batch_get(&w.idents[*req].clone(), &refs);
+            let out = w.vault.batch_get(&w.req_str(*req), &refs);
             let mut got: Vec<usize> = Vec::new();
             let mut errs: Vec<String> = Vec::new();
             let out = out.map(|results| {
@@ -1045,7 +1166,7 @@ fn exec(w: &mut World, m: &mut Model, rep: &mut Report, r: &mut Rng, stream: &st
             let names: Vec<String> = secs.iter().map(|s| w.sec_names[*s].clone()).collect();
             let entries: Vec<(&str, &str)> = names.iter().zip(vals.iter()).map(|(n, v)| (n.as_str(), v.1.as_str())).collect();
             let existed: Vec<bool> = secs.iter().map(|s| w.sec_exists[*s]).collect();
-            let rq = w.idents[*req].clone();
+            let rq = w.req_str(*req);
             let mut errs: Vec<String> = Vec::new();
             let imp = if *plain_api && entries.len() == 1 {
                 rep.hit("batchset.via_batch_set");
@@ -1094,7 +1215,7 @@ fn exec(w: &mut World, m: &mut Model, rep: &mut Report, r: &mut Rng, stream: &st
         }
         Op::Wrap { req, sec } => {
             let t0 = w.clear_time();
-            let out = w.vault.wrap_secret(&w.idents[*req].clone(), &w.sec_names[*sec].clone(), 600_000);
+            let out = w.vault.wrap_secret(&w.req_str(*req), &w.sec_names[*sec].clone(), 600_000);
             let mut tok = None;
             let out = out.map(|t| {
                 tok = Some(t);
@@ -1121,7 +1242,7 @@ fn exec(w: &mut World, m: &mut Model, rep: &mut Report, r: &mut Rng, stream: &st
         }
         Op::UndelegateCascade { parent, child } => {
             let t0 = w.clear_time();
-            let out = w.vault.revoke_delegation_cascading(&w.idents[*parent].clone(), &w.idents[*child].clone());
+            let out = w.vault.revoke_delegation_cascading(&w.req_str(*parent), &w.idents[*child].clone());
             let mut revoked: Vec<(usize, usize, Vec<usize>)> = Vec::new();
             let out = out.map(|recs| {
                 let mut pairs: Vec<(usize, usize)> = Vec::new();
@@ -1185,7 +1306,7 @@ fn exec(w: &mut World, m: &mut Model, rep: &mut Report, r: &mut Rng, stream: &st
             w.value_id.insert(val.clone(), id);
             let t0 = w.clear_time();
             let existed = w.sec_exists[*sec];
-            let (rq, sn) = (w.idents[*req].clone(), w.sec_names[*sec].clone());
+            let (rq, sn) = (w.req_str(*req), w.sec_names[*sec].clone());
             let out = if *rotate { w.vault.rotate(&rq, &sn, &val) } else { w.vault.set(&rq, &sn, &val) };
             let imp = res(w, out.map(|()| "ok".to_string()));
             let tag = if *rotate { "rotate" } else { "set" };
@@ -1279,14 +1400,26 @@ fn exec(w: &mut World, m: &mut Model, rep: &mut Report, r: &mut Rng, stream: &st
 fn gen_op(w: &World, r: &mut Rng) -> Op {
     let nid = w.idents.len();
     let nsec = w.sec_names.len();
+    let existing: Vec<usize> = (0..nsec).filter(|&i| w.sec_exists[i]).collect();
+    // a secret whose node key is known (created at some point; the string stays valid after a delete)
+    let keyed: Vec<usize> = (0..nsec).filter(|&i| w.sec_key[i].is_some()).collect();
+    let node_key = |r: &mut Rng| -> usize {
+        if keyed.is_empty() || r.chance(1, 6) {
+            KEY_NO_SECRET + r.below(3) as usize
+        } else {
+            KEY_BASE + w.sec_ids[*r.pick(&keyed)] as usize
+        }
+    };
     let requester = |r: &mut Rng| -> usize {
         if r.chance(1, 4) {
             0
+        } else if r.chance(1, 16) {
+            // not an identity: the graph key of some secret's node
+            node_key(r)
         } else {
             1 + r.below(w.n_users as u64) as usize
         }
     };
-    let existing: Vec<usize> = (0..nsec).filter(|&i| w.sec_exists[i]).collect();
     let sec = |r: &mut Rng| -> usize {
         if !existing.is_empty() && r.chance(9, 10) {
             *r.pick(&existing)
@@ -1307,6 +1440,16 @@ fn gen_op(w: &World, r: &mut Rng) -> Op {
             Some(*r.pick(&c))
         }
     };
+    if !existing.is_empty() && r.chance(1, 16) {
+        // the graph key of a secret's node as requester, 3 times in 4 on that very secret (the `source == target`
+        // shortcut of the path search), every guarded call
+        let sx = *r.pick(&existing);
+        let rq = if r.chance(3, 4) { KEY_BASE + w.sec_ids[sx] as usize } else { node_key(r) };
+        let k = r.below(17);
+        // the destructive ones more rarely: they only matter when the check is broken
+        let k = if k == 3 && r.chance(1, 2) { 0 } else { k };
+        return guarded_op(r, k, rq, sx, w.n_users);
+    }
     match r.below(100) {
         0..=16 => {
             if let (true, Some((e, s))) = (r.chance(1, 2), holder(r, 1)) {
@@ -1326,6 +1469,7 @@ fn gen_op(w: &World, r: &mut Rng) -> Op {
                 0 | 1 => Op::GetVersion { req: rq, sec: sx, ver },
                 2 => Op::Versions { req: rq, sec: sx, via_list: r.chance(1, 2) },
                 3 | 4 => Op::Rollback { req: rq, sec: sx, ver },
+                5 => Op::Perm { req: rq, sec: sx },
                 _ => Op::Probe { req: rq, sec: sx, kind: r.below(5) as u8 },
             }
         }
@@ -1484,20 +1628,69 @@ fn gen_op(w: &World, r: &mut Rng) -> Op {
     }
 }
 
-/// OBSERVATION (outside the property's quantifier: the requester is not one of the identities, it is the graph key
-/// of the secret's own node).  `get_permission_level_verified` answers Admin when source == target, so a caller whose
-/// identity string equals `vault_secret:<obfuscated name>` — a string that is readable in the store keys and in the
-/// `entity_key` property of the graph node — passes every check on that secret without any grant.
-fn probe_identity_namespace(w: &World, rep: &mut Report) {
-    let Some(nid) = w.sec_node[0] else { return };
-    let Ok(node) = w.graph.get_node(nid) else { return };
-    let Some(PropertyValue::String(node_key)) = node.properties.get("entity_key") else { return };
-    let perm = w.vault.get_permission(node_key, &w.sec_names[0]).map(lvl);
-    let read_ok = w.vault.get(node_key, &w.sec_names[0]).is_ok();
-    rep.hit(if read_ok { "observe.secret_node_key_as_identity.reads" } else { "observe.secret_node_key_as_identity.denied" });
-    rep.observe(json!({"what": "requester string equal to the secret's own graph-node key (vault_secret:<obfuscated name>, visible in store keys and node properties)",
-        "get_permission": perm, "get_succeeds_without_any_grant": read_ok,
-        "why_not_a_violation": "the requester is not an identity of the quantifier (root + 3-5 named identities); identity strings are chosen by the embedding layer. Reported as a candidate finding: the `source == target => Admin` shortcut of access.rs makes the identity namespace and the secret-node namespace overlap"}));
+/// regression case for ad58047e, built once the world (and so the secrets' model ids) exists: root stores two secrets
+/// and grants user 1 Read on the first; then the requester string `vault_secret:<obfuscated name>` of the first
+/// secret tries every guarded call on that secret (where the path search would answer Admin through
+/// `source == target`), on the other secret, and on a name that is not stored; so do the node key of the other
+/// secret and a node key of no secret.  Every one of these must be refused; the destructive call comes last.
+fn node_key_scenario(w: &World) -> Vec<Op> {
+    let k0 = KEY_BASE + w.sec_ids[0] as usize;
+    let k1 = KEY_BASE + w.sec_ids[1] as usize;
+    let kx = KEY_NO_SECRET;
+    let mut ops = vec![
+        Op::Set { req: 0, sec: 0, big: false },
+        Op::Set { req: 0, sec: 1, big: false },
+        Op::Set { req: 0, sec: 0, big: false },
+        Op::Grant { req: 0, ent: 1, sec: 0, level: 1, plain_api: false },
+        Op::Perm { req: k0, sec: 0 },
+        Op::Get { req: k0, sec: 0 },
+        Op::GetVersion { req: k0, sec: 0, ver: 1 },
+        Op::Versions { req: k0, sec: 0, via_list: false },
+        Op::Versions { req: k0, sec: 0, via_list: true },
+        Op::Wrap { req: k0, sec: 0 },
+    ];
+    for kind in 0..5 {
+        ops.push(Op::Probe { req: k0, sec: 0, kind });
+    }
+    ops.extend([
+        Op::BatchGet { req: k0, secs: vec![0, 1] },
+        Op::List { req: k0, pat: 0, arg: 0, via: 0 },
+        Op::List { req: k0, pat: 2, arg: 0, via: 1 },
+        Op::List { req: k0, pat: 0, arg: 0, via: 2 },
+        Op::Set { req: k0, sec: 0, big: false },
+        Op::Rotate { req: k0, sec: 0, big: false },
+        Op::Rollback { req: k0, sec: 0, ver: 1 },
+        Op::BatchSet { req: k0, secs: vec![0], big: vec![false], plain_api: false },
+        Op::BatchSet { req: k0, secs: vec![0], big: vec![false], plain_api: true },
+        Op::Grant { req: k0, ent: 2, sec: 0, level: 3, plain_api: true },
+        Op::Get { req: 2, sec: 0 },
+        Op::GrantTtl { req: k0, ent: 3, sec: 0, level: 1, ttl_ms: 600_000 },
+        Op::Revoke { req: k0, ent: 1, sec: 0 },
+        Op::Delegate { parent: k0, child: 3, secs: vec![0], level: 1, ttl_ms: None },
+        Op::Get { req: 3, sec: 0 },
+        // the same string on another secret, another secret's key here, a key of no secret, a name not stored
+        Op::Get { req: k0, sec: 1 },
+        Op::Perm { req: k0, sec: 1 },
+        Op::Get { req: k1, sec: 0 },
+        Op::Perm { req: k1, sec: 0 },
+        Op::Get { req: kx, sec: 0 },
+        Op::Perm { req: kx, sec: 0 },
+        Op::List { req: kx, pat: 0, arg: 0, via: 0 },
+        Op::Set { req: k0, sec: 2, big: false },
+        Op::Get { req: k0, sec: 2 },
+        // group membership does not turn the string into an identity either: user 1 (Read holder) made a member OF
+        // nothing new; the key still gets nothing after unrelated graph changes
+        Op::AddMember { a: 2, b: Nd::Ent(1) },
+        Op::Get { req: k0, sec: 0 },
+        // destructive one last
+        Op::Delete { req: k0, sec: 0 },
+        // controls: the identities are served as before
+        Op::Get { req: 1, sec: 0 },
+        Op::Get { req: 2, sec: 0 },
+        Op::Perm { req: 1, sec: 0 },
+        Op::Get { req: 0, sec: 0 },
+    ]);
+    ops
 }
 
 fn policies() -> Vec<Pol> {
@@ -1516,8 +1709,10 @@ fn policies() -> Vec<Pol> {
 fn directed(m: &mut Model, rep: &mut Report, root: &Rng, seen: &mut BTreeSet<String>) {
     // each scenario: list of ops on a world with 3 users (1,2,3), groups 4,5, secrets 0..2
     let scenarios: Vec<(&str, Vec<Op>)> = vec![
+        // runs FIRST on every seed: regression case for ad58047e (ops built by `node_key_scenario` once the world exists)
+        ("secret-node-key-as-identity", Vec::new()),
         (
-            // runs FIRST on every seed: the two persistence sites that still hold the secret name in clear
+            // runs on every seed: the two persistence sites that still hold the secret name in clear
             // (known findings ttl.persist / delegation.persist, and their consequence in the snapshot).
             // Long TTLs: nothing expires before the scan at the end of the scenario.
             "names-at-rest-known",
@@ -1831,7 +2026,7 @@ fn directed(m: &mut Model, rep: &mut Report, root: &Rng, seen: &mut BTreeSet<Str
     ];
     for (name, ops) in scenarios {
         let mut r = root.fork(name);
-        let mvs = if name == "size-limit-default" || name == "names-at-rest-known" || name == "size-boundary-default" { 65_531 } else { 96 };
+        let mvs = if name == "size-limit-default" || name == "names-at-rest-known" || name == "size-boundary-default" || name == "secret-node-key-as-identity" { 65_531 } else { 96 };
         let mut w = World::new(&mut r, m, Pol { admin_limit: 1, write_limit: 2, horizon: 10 }, 3, mvs, 3, 3, 3);
         if name == "names-at-rest-known" {
             // names long enough for the plaintext scan whatever the seed (namespace prefix kept)
@@ -1842,6 +2037,7 @@ fn directed(m: &mut Model, rep: &mut Report, root: &Rng, seen: &mut BTreeSet<Str
                 *n = if ns == 0 { format!("known-finding-secret-name-{i}") } else { format!("kf-ns{ns}/known-finding-secret-name-{i}") };
             }
         }
+        let ops = if name == "secret-node-key-as-identity" { node_key_scenario(&w) } else { ops };
         let mut ok = true;
         for op in &ops {
             if !exec(&mut w, m, rep, &mut r, "directed", op) {
@@ -1849,8 +2045,18 @@ fn directed(m: &mut Model, rep: &mut Report, root: &Rng, seen: &mut BTreeSet<Str
                 break;
             }
         }
-        if name == "names-at-rest-known" {
-            probe_identity_namespace(&w, rep);
+        if name == "reopen-stale-tracker-entry" && ok {
+            // OBSERVATION (fail-closed, outside the property's quantifier: access is refused, never given): the second
+            // tracker entry of the pair expires with no edge left, is dropped from memory without a persist, comes back
+            // at re-open and its expiry then deletes the later PERMANENT grant of the same (entity, secret) pair
+            let live = w.best_level(1, 0, w.now(), true);
+            let denied_after_reopen = w.lines.iter().rev().take(2).all(|l| l.contains("=> err denied"));
+            rep.hit(if denied_after_reopen && live >= 2 { "observe.stale_ttl_entry_deletes_permanent_grant.seen" } else { "observe.stale_ttl_entry_deletes_permanent_grant.not_seen" });
+            if denied_after_reopen && live >= 2 {
+                rep.observe(json!({"what": "an expiring TTL tracker entry deletes a later permanent grant of the same (entity, secret) pair: after re-opening the vault the holder of an unexpired, unrevoked Write grant is refused",
+                    "bookkeeping_live_level": live, "trace_tail": w.lines.iter().rev().take(6).rev().collect::<Vec<_>>(),
+                    "why_not_a_violation": "fail-closed: the property forbids access without a live grant, it does not promise access with one; the model mirrors the behaviour through the persisted copy of the tracker (cleanup_expired_grants drops every VAULT_ACCESS edge of the pair, the tracker is keyed by (entity, secret name) only)"}));
+            }
         }
         w.scan_everything(rep, seen);
         rep.case("directed", if ok { Some(name) } else { None });
@@ -1983,7 +2189,7 @@ fn perm_stream(m: &mut Model, rep: &mut Report, root: &Rng, n: usize) {
 fn main() {
     let args = parse_args();
     let mut rep = Report::new(
-        "directed scenarios + seeded random histories (150-400 vault API calls each, root + 3-5 identities + 2 groups, 4-8 secrets in up to 4 namespaces) + random raw permission graphs; \
+        "directed scenarios + seeded random histories (150-400 vault API calls each, root + 3-5 identities + 2 groups + the secrets' graph-node keys as requester strings, 4-8 secrets in up to 4 namespaces) + random raw permission graphs; \
          a history is non-trivial when >=50 calls ran and >=10 succeeded, a permission graph when some non-root identity holds a level; distinct = distinct canonical trace",
     );
     rep.expected_branches = [
@@ -1995,6 +2201,7 @@ fn main() {
         "rollback.err_insufficient", "rollback.err_not_found", "rollback.err_too_large", "batchget.ok", "batchget.entry_ok", "batchset.ok", "batchset.entry_ok", "batchset.via_batch_set", "wrap.ok", "wrap.err_denied", "unwrap.ok",
         "unwrap.err_not_found", "undelegatec.ok", "undelegatec.records_revoked", "reopen.ok", "addmember.ok", "delmember.ok", "rawedge.ok", "rawedge.undirected", "rawedge.directed", "rawedge.sig_class0", "rawedge.sig_class1",
         "rawedge.sig_class2", "rawedge.sig_class3", "rawedge.sig_class4", "rawedge.type.OWNS", "rawedge.type.MEMBER_OF", "rawedge.type.VAULT_ACCESSX_ADMIN", "rawedge.type.VAULT_ACCESS", "rawedge.type.VAULT_ACCESS_FOO", "perm.answer.none", "perm.answer.1", "perm.answer.2", "perm.answer.3",
+        "requester.secret_node_key", "requester.node_key_of_no_secret", "permq.none", "permq.1", "permq.2", "permq.3",
     ]
     .iter()
     .map(|s| s.to_string())
@@ -2013,6 +2220,7 @@ fn main() {
     rep.note(&format!("corr_vault wall time {:.1}s", t.elapsed().as_secs_f64()));
     rep.note("TTL expiry is driven with real short TTLs (6-55 ms) and sleeps; calls are never started within 4 ms before / 0.4 ms after a pending expiry and a call that overlaps one aborts its history (counted as history.aborted_time_ambiguous)");
     rep.note("secret names are generated without '*' (a '*' turns a list pattern into a wildcard) and without '/' inside a namespace component; names/values shorter than 6 bytes are excluded from the plaintext scan");
+    rep.note("requester strings: root, the named identities, and (about 1 call in 12 of a history, and the first directed scenario) the graph-node key `vault_secret:<obfuscated name>` of a secret, read from the graph, or a string of that form naming no secret; grantees, delegation children and raw-edge endpoints are always identities / groups / secret nodes");
     rep.note("delegations are generated so that every child has at most one delegating parent at a time (DelegationManager::delegation_depth / is_ancestor pick a record by DashMap iteration order otherwise)");
     let _: Option<Value> = None;
     rep.write(&args.out);
